@@ -398,6 +398,31 @@ def r02_5(ctx: Ctx):
                       f'{fld} is changed but the recalculation flag is not set on this path: the queued '
                       f'characteristics become stale', key=ctx.key_for(rid + 'a', fn, sts[-1].node))
     ctx.floor(rid + 'a', 'paths that change M or Z*', n_a, 3)
+    # the same obligation for every other routine that writes into the estimate or the best-value table
+    for fld in (Mf, Zf):
+        for m in roles.sub_writers(roles.method_cls, fld):
+            fn = m.func
+            if fn in (ew, up) or fn.name == '__init__' or fn.kind != 'function':
+                continue
+            ok = False
+            try:
+                for p in C.normal_paths(ctx.explorer().explore(fn)):
+                    hit = [s_ for s_ in C.stores_to(p, tkind='sub') if s_.node is m.node or
+                           getattr(s_.node, 'lineno', -1) == getattr(m.node, 'lineno', -2)]
+                    if not hit:
+                        continue
+                    fin = [s_ for s_ in p.stores() if s_.d['tkind'] == 'attr' and s_.d['field'] == 'recalc']
+                    # the flag must be left raised at exit; where in the routine it is raised is immaterial
+                    ok = bool(fin) and key_of(fin[-1].d['value']) == TRUE
+                    if not ok:
+                        break
+            except AnalysisError:
+                ok = False
+            ctx.check(ok, rid + 'a', fn.short, m.loc(),
+                      f'{fn.short} changes {fld} and raises the recalculation flag',
+                      f'{fn.short} writes {fld} ({m.text()[:60]}) without raising the recalculation flag: the queued '
+                      f'characteristics were computed with the old {fld} and decide later trials',
+                      key=f'{rid}a::{fn.short}::writes-{fld}-without-recalc')
     # (b) selection: full recomputation before the pop whenever the flag may be set
     pops = roles.sd_method('GetDataItemWithMaxGlobalR')
     ex = ctx.explorer(inline=lambda f, st: f is fr)
@@ -744,8 +769,50 @@ def r02_8_selection(ctx: Ctx):
                   'interval', key=f'R02.8::{sel.short}::new-item')
 
 
+def r02_9(ctx: Ctx):
+    """A trial's recorded value/index never changes after its evaluation: M (the largest slope seen) and every
+    queued characteristic were computed from it."""
+    rid = 'R02.9'
+    ctx.rule(rid, 'recorded trial values are immutable: SetZ / SetIndex (and direct stores of the value / index '
+                  'fields) happen only in the evaluation routine')
+    roles = C.roles_of(ctx)
+    try:
+        er = roles.eval_routine
+    except RoleMissing as e:
+        ctx.fail(rid, f'role {e.role}', 'iOpt/', str(e), key=f'{rid}::role::{e.role}')
+        return
+    item = ctx.ix.cls('SearchDataItem')
+    setters = {roles.fq(item.lookup(n)): n for n in ('SetZ', 'SetIndex') if item.lookup(n)}
+    allowed = roles.dominated_closure({roles.fq(er)})
+    n = 0
+    for sq, nm in setters.items():
+        for (caller, _nid) in ctx.pta.callers.get(sq, ()):
+            n += 1
+            f = ctx.ix.funcs.get(caller)
+            if f is not None and not f.module.name.startswith(('iOpt.method', 'iOpt.solver')):
+                continue
+            ctx.check(caller in allowed, rid, f.short if f else caller, f.loc() if f else '',
+                      f'{nm} is called from the evaluation routine',
+                      f'{f.short if f else caller} calls {nm} outside the evaluation routine: the value of an '
+                      f'already recorded trial changes after M and the characteristics were computed from it, so '
+                      f'later trials are not the decision-rule points of the recorded history',
+                      key=f'{rid}::{caller}::calls::{nm}')
+    for m in roles.mutations():
+        if m.init_self or m.kind not in ('attr', 'aug') or m.field not in ('_SearchDataItem__z', '_SearchDataItem__index'):
+            continue
+        q = roles.fq(m.func)
+        if q in setters or q in allowed:
+            continue
+        n += 1
+        ctx.fail(rid, m.func.short, m.loc(), f'{m.text()[:60]} rewrites the recorded value/index of a trial outside '
+                                             f'the evaluation routine', key=ctx.key_for(rid, m.func, m.node))
+    ctx.floor(rid, 'call sites of the value/index setters', n, 2)
+
+
 def check(ctx: Ctx):
     roles = C.roles_of(ctx)
+    if C.want(ctx, 'R02.9'):
+        r02_9(ctx)
     for rid, fn in (('R02.1', r02_1), ('R02.2', r02_2), ('R02.3', r02_3), ('R02.4', r02_4), ('R02.5', r02_5),
                     ('R02.6', r02_6), ('R02.7', r02_7_8)):
         if C.want(ctx, rid) or (rid == 'R02.7' and C.want(ctx, 'R02.8')):
